@@ -63,6 +63,14 @@ func main() {
 			}
 			return a[:len(a)-7] + "!" + a[len(a)-6:]
 		}
+		// bech32m re-encodes a valid key string with the Bech32m checksum constant
+		bech32m := func(a string) string {
+			hrp, data, err := refage.Bech32Decode(a)
+			if err != nil {
+				panic(err)
+			}
+			return refage.Bech32EncodeConst(hrp, data, refage.Bech32mConst)
+		}
 		type kind struct{ name, text string }
 		mkAlpha := func(a, b, other string, swapCase func(string) string) []kind {
 			return []kind{
@@ -70,6 +78,7 @@ func main() {
 				{"key-substituted", sub(a)}, {"key-truncated", a[:len(a)-1]}, {"key-truncated-8", a[:len(a)-8]}, {"key-wrong-case", swapCase(a)}, {"key-mixed-case", mixed(a)},
 				{"other-kind", other}, {"key-twice-on-line", a + " " + b}, {"garbage", "hello world"}, {"key+comment", a + " # note"}, {"nul", a + "\x00"}, {"bom+key", "\xef\xbb\xbf" + a},
 				{"key-q-replaced-by-non-alphabet-character", qsub(a, b)},
+				{"key-with-bech32m-checksum", bech32m(a)},
 			}
 		}
 		idAlpha := mkAlpha(idA, idB, rcA, strings.ToLower)
